@@ -138,22 +138,24 @@ func (s scope) clone() scope {
 
 // Gen generates templates over a binding environment.
 type Gen struct {
-	ReadOnly    bool     // no assign / capture / break / include / custom tags / error constructs: the nodes only read
-	loopVars    []string // names of the enclosing loops' variables, innermost last
-	mapPaths    []string // dotted paths of maps nested in the bindings ("m.k", "m.k.j")
-	r           *Rng
-	feat        map[string]bool
-	incArgs     []string // argument expressions for include tags; empty = no include
-	budget      int
-	loop        int
-	nvar        int
-	used        map[string]int // constructs used (tag/filter coverage)
-	MapEmphasis bool           // C02: prefer maps as iteration / filter inputs
-	NoCustom    bool           // only standard tags and filters
-	ArrEmphasis bool           // C03/C04: prefer arrays with mutating-looking filters
-	focus       []filt         // swarm: a few filters used much more often than the rest, with varied arguments
-	env         *Env           // bindings the templates are generated over (for boundary-value arguments)
-	hint        int            // length of the value the next filter is applied to, -1 if unknown
+	ReadOnly     bool     // no assign / capture / break / include / custom tags / error constructs: the nodes only read
+	loopVars     []string // names of the enclosing loops' variables, innermost last
+	mapPaths     []string // dotted paths of maps nested in the bindings ("m.k", "m.k.j")
+	r            *Rng
+	feat         map[string]bool
+	incArgs      []string // argument expressions for include tags; empty = no include
+	budget       int
+	loop         int
+	nvar         int
+	used         map[string]int // constructs used (tag/filter coverage)
+	crlf         bool           // every newline of literal text is CR LF
+	PropEmphasis bool           // property reads of structs and maps dominate (one site, several dynamic types across environments)
+	MapEmphasis  bool           // C02: prefer maps as iteration / filter inputs
+	NoCustom     bool           // only standard tags and filters
+	ArrEmphasis  bool           // C03/C04: prefer arrays with mutating-looking filters
+	focus        []filt         // swarm: a few filters used much more often than the rest, with varied arguments
+	env          *Env           // bindings the templates are generated over (for boundary-value arguments)
+	hint         int            // length of the value the next filter is applied to, -1 if unknown
 }
 
 var allFeatures = []string{"spacing", "trim", "raw", "comment", "tablerow", "cycle", "capture", "case", "custom", "errors", "filters", "assign", "breaks", "unless", "loopmods", "nest"}
@@ -169,6 +171,8 @@ func NewGen(r *Rng, budget int) *Gen {
 	if r.Chance(0.35) {
 		g.focus = pickFocus(r)
 	}
+	g.PropEmphasis = r.Chance(0.15)
+	g.crlf = r.Chance(0.1)
 	if r.Chance(0.1) {
 		g.feat["deep"], g.feat["nest"] = true, true
 	}
@@ -454,6 +458,9 @@ func (g *Gen) scalarExpr(sc scope) string {
 	if g.ArrEmphasis {
 		w = []int{2, 1, 8, 2, 1, 2, 1, 2}
 	}
+	if g.PropEmphasis {
+		w = []int{2, 1, 2, 12, 1, 2, 1, 2}
+	}
 	if g.loop == 0 {
 		w[5] = 0
 	}
@@ -471,7 +478,11 @@ func (g *Gen) scalarExpr(sc scope) string {
 		g.use("filter:" + f.name)
 		return e + " | " + f.name + f.args(g, sc)
 	case 3: // property / index
-		switch g.r.Intn(6) {
+		sub := g.r.Intn(6)
+		if g.PropEmphasis && g.r.Chance(0.5) {
+			sub = 4
+		}
+		switch sub {
 		case 0:
 			if len(sc.maps) > 0 {
 				return pick(g.r, sc.maps) + "." + pick(g.r, keyWords)
@@ -489,7 +500,7 @@ func (g *Gen) scalarExpr(sc scope) string {
 				return pick(g.r, sc.arrs) + "." + pick(g.r, []string{"first", "last", "size"})
 			}
 		case 4:
-			if g.r.Chance(0.3) {
+			if g.r.Chance(0.3) || (g.PropEmphasis && g.r.Chance(0.4)) {
 				return "q." + pick(g.r, []string{"name", "Title", "Other", "title"})
 			}
 			return "p." + pick(g.r, []string{"Name", "Age", "Upper", "nick", "Tags", "PtrLen", "nope", "ID", "slug", "Base", "Slug", "Fail"})
@@ -565,7 +576,7 @@ var noSpaceText = "https://example.org/assets/" + strings.Repeat("0123456789abcd
 // hugeText: one output chunk well above any plausible buffer threshold (4 kB, 8 kB)
 var hugeText = strings.Repeat("0123456789abcdef", 600) + "!"
 
-var textBits = []string{noSpaceText, hugeText, "a", "hello", " ", "  ", "\n", "\n\n", " \t", "x ", " y", "<p>", "</p>", "é", "日本", ", ", ".", "line\n", "\n  indented", "0", "{", "}", "%"}
+var textBits = []string{noSpaceText, hugeText, "a", "hello", " ", "  ", "\n", "\n\n", " \t", "x ", " y", "<p>", "</p>", "é", "日本", ", ", ".", "line\n", "\n  indented", "0", "{", "}", "%", "\r\n", "line\r\n"}
 
 func (g *Gen) text() *TNode {
 	var sb strings.Builder
@@ -573,6 +584,9 @@ func (g *Gen) text() *TNode {
 		sb.WriteString(pick(g.r, textBits))
 	}
 	s := sb.String()
+	if g.crlf {
+		s = strings.ReplaceAll(s, "\n", "\r\n") // a file with Windows line endings
+	}
 	s = strings.ReplaceAll(s, "{{", "{ {")
 	s = strings.ReplaceAll(s, "{%", "{ %")
 	return &TNode{K: "text", S: s}
@@ -618,14 +632,14 @@ func (g *Gen) node(sc *scope, depth int) *TNode {
 		b(deep && g.feat["case"], 1),          // 4 case
 		b(deep, 4),                            // 5 for
 		b(deep && g.feat["tablerow"], 2),      // 6 tablerow
-		b(g.feat["assign"] && !g.ReadOnly, 2),                // 7 assign
-		b(deep && g.feat["capture"] && !g.ReadOnly, 1),       // 8 capture
-		b(g.loop > 0 && g.feat["cycle"], 4),                  // 9 cycle
-		b(g.loop > 0 && g.feat["breaks"] && !g.ReadOnly, 1),  // 10 break/continue
-		b(g.feat["comment"], 1),                              // 11 comment
-		b(g.feat["raw"], 1),                                  // 12 raw
-		b(len(g.incArgs) > 0 && !g.ReadOnly, 3),              // 13 include
-		b(g.feat["custom"] && !g.NoCustom && !g.ReadOnly, 3), // 14 echo / expand / bset: their arguments are evaluated at render time
+		b(g.feat["assign"] && !g.ReadOnly, 2), // 7 assign
+		b(deep && g.feat["capture"] && !g.ReadOnly, 1),               // 8 capture
+		b(g.loop > 0 && g.feat["cycle"], 4),                          // 9 cycle
+		b(g.loop > 0 && g.feat["breaks"] && !g.ReadOnly, 1),          // 10 break/continue
+		b(g.feat["comment"], 1),                                      // 11 comment
+		b(g.feat["raw"], 1),                                          // 12 raw
+		b(len(g.incArgs) > 0 && !g.ReadOnly, 3),                      // 13 include
+		b(g.feat["custom"] && !g.NoCustom && !g.ReadOnly, 3),         // 14 echo / expand / bset: their arguments are evaluated at render time
 		b(deep && g.feat["custom"] && !g.NoCustom && !g.ReadOnly, 1), // 15 wrap
 		b(g.feat["errors"] && !g.ReadOnly, 1),                        // 16 error construct
 	}
@@ -736,6 +750,20 @@ func (g *Gen) node(sc *scope, depth int) *TNode {
 		// exponentially with the iteration count (2^216 elements were generated once).
 		if g.loop == 0 && g.r.Chance(0.15) {
 			v = pick(g.r, []string{"s", "n", "arr", "m"}) // shadow a binding
+		}
+		dottedAssign := false
+		if g.r.Chance(0.04) {
+			// a dotted target (rejected today; if it is ever accepted it must not reach into
+			// the caller's maps)
+			dottedAssign = true
+			if len(g.mapPaths) > 0 && g.r.Chance(0.7) {
+				v = pick(g.r, g.mapPaths) + "." + pick(g.r, keyWords)
+			} else {
+				v = pick(g.r, append([]string{"m", "m2"}, sc.maps...)) + "." + pick(g.r, keyWords) + "." + pick(g.r, keyWords)
+			}
+		}
+		if dottedAssign {
+			return g.trim(&TNode{K: "tag", S: "assign " + v + " = " + g.scalarExpr(*sc)})
 		}
 		var n *TNode
 		if g.r.Chance(0.3) {
@@ -1010,6 +1038,13 @@ func (g *Gen) Template(e *Env) []*TNode {
 	}
 	ns := g.Nodes(scopeOf(e), 0, 8)
 	g.fixErrors(ns)
+	if g.r.Chance(0.03) {
+		// deep nesting: the whole template inside 9..40 blocks, one per line
+		for i, d := 0, pick(g.r, []int{9, 10, 12, 16, 17, 24, 33, 40}); i < d; i++ {
+			head := pick(g.r, []string{"if true", "unless false", fmt.Sprintf("for w%d in (1..1)", i), "if n or true"})
+			ns = []*TNode{{K: "block", S: head, C: append([]*TNode{{K: "text", S: "\n"}}, ns...)}}
+		}
+	}
 	if g.r.Chance(0.02) {
 		// a long flat page (100..260 top-level nodes), sometimes with several faulty tags far
 		// apart: which error is reported must not depend on anything but the text
